@@ -497,7 +497,7 @@ func runC14(c *fw.Ctx) {
 			root = spec.Obj
 		}
 		t := &spec.Spec{K: root}
-		n := []int{0, 1, 2, 5, 9, r.Range(0, 14)}[r.Intn(6)]
+		n := []int{0, 1, 2, 5, 9, r.Range(0, 14), r.Range(0, 14), 33, 70}[r.Intn(9)]
 		kinds := r.U64() | 1<<uint(r.Intn(7)) // which kinds may occur
 		for j := 0; j < n; j++ {
 			var v *spec.Spec
